@@ -6,7 +6,7 @@ HEADER = """C15 - derived containers are exact and independent.
     history on it is refined by the engine's refinement theorem - in particular it can grow. Independence of the
     two afterwards cannot be expressed in a functional model (no shared buffer exists there); it is tied by
     two-handle correspondence traces that mutate and destroy either side and re-observe the other."""
-IMPORTS = """From Coq Require Import Permutation Sorted.\nFrom CC Require Import Base.Prelude Base.Alloc Base.Ledger Generated.Status Generated.Constants Generated.Guards.\nFrom CC Require Import Rbuf.RbufModel SPool.SPoolModel DPool.DPoolModel Array.ArrayModel Deque.DequeModel PQueue.PQueueModel Hash.HashModel Tst.TstModel Tree.TreeModel.\n@MODULES@\nLocal Open Scope N_scope."""
+IMPORTS = """From Coq Require Import Permutation Sorted.\nFrom CC Require Import Base.Prelude Base.Alloc Base.Ledger Generated.Status Generated.Constants Generated.Guards.\nFrom CC Require Import Rbuf.RbufModel SPool.SPoolModel DPool.DPoolModel Array.ArrayModel Deque.DequeModel PQueue.PQueueModel Hash.HashModel Tst.TstModel Tree.TreeModel List_.ListModel SList.SListModel.\n@MODULES@\nLocal Open Scope N_scope."""
 THEOREMS = [
   ("C15_array_subarray", "subarray_spec", "CC_Array subarray: all b, e below 2^64; invalid ranges rejected with nothing allocated"),
   ("C15_array_copy_shallow", "copy_shallow_spec", ""),
@@ -16,4 +16,10 @@ THEOREMS = [
   ("C15_deque_filter", "Deque:filter_spec", ""),
   ("C15_hashtable_keys_values", "ht_collect_content", "CC_HashTable get_keys / get_values: exactly the bindings, table unchanged"),
   ("C15_hashtable_collect", "ht_collect_spec", ""),
+  ("C15_list_sublist", "List_:sublist_spec", "CC_List sublist / copy_shallow / copy_deep / filter"),
+  ("C15_list_copy", "List_:copy_with_spec", ""),
+  ("C15_list_filter", "List_:filter_spec", ""),
+  ("C15_slist_sublist", "ssublist_spec", "CC_SList"),
+  ("C15_slist_copy", "scopy_with_spec", ""),
+  ("C15_slist_filter", "sfilter_spec", ""),
 ]
